@@ -1,12 +1,397 @@
-//! C33 — not built yet.
-use crate::runner::{Outcome, Summary};
-use crate::Ctx;
-use serde_json::Value;
+//! C33 — wrapping a program in a loop repeats its body exactly n times.
+//!
+//! Main direction code -> spec: `drive` calls the real `Program::wrap_in_loop` on seeded random programs
+//! (bodies over gates, pragmas, pulses, measurements and classical instructions that do not touch the
+//! counter; random definitions; n in 0..=max), *exports the returned body as abstract instructions*
+//! (`export`) and writes one `reset` record per wrapped program.  spec/trace/LoopExecTrace.tla makes every
+//! record an initial state of the LoopExec interpreter: TLC executes the exported listing and checks
+//! <>halted, ExactlyNTimes, InOrderSoFar, StepBound, NotStuck, SmallNShape and DefsKept on it.
+//!
+//! spec -> code (`replay`): TLC cases {body:[symbols], n, cell, wrapped} from spec/mc/MC_LoopExec.tla (the
+//! model's ideal Wrap) are compared with the exported real result for two concrete palettes of the
+//! symbols.  A difference is a violation only if the property itself fails on the real result (judged by
+//! `property_failures`: a small interpreter + definition check in Rust), otherwise a divergence.
+//!
+//! Provisional finding `wrap-in-loop-ignores-counter-index` (see known_findings.d/C33.json): with a
+//! counter reference whose index is not 0 the SUB still addresses index 0, so the loop never ends.
 
-pub fn replay(_ctx: &Ctx, _case: &Value) -> Outcome {
-    panic!("C33: replay not implemented")
+use crate::abs::target_name;
+use crate::runner::{Outcome, Summary, Violation};
+use crate::util::{self, arr, instr, s};
+use crate::Ctx;
+use quil_rs::instruction::{
+    ArithmeticOperand, Declaration, Instruction, MemoryReference, ScalarType, Target, TargetPlaceholder, Vector,
+};
+use quil_rs::quil::Quil;
+use quil_rs::Program;
+use rand::seq::SliceRandom;
+use rand::Rng;
+use serde_json::{json, Value};
+
+pub const FINDING_INDEX: &str = "wrap-in-loop-ignores-counter-index";
+
+/// abstraction of one instruction of a (wrapped) body; `ctr` is the name of the counter region
+pub fn export(i: &Instruction, ctr: &str) -> Value {
+    let text = i.to_quil_or_debug();
+    let small = |v: i64| v.abs() < (1 << 30);
+    match i {
+        Instruction::Label(l) => json!({"k": "Label", "target": target_name(&l.target)}),
+        Instruction::Jump(j) => json!({"k": "Jump", "target": target_name(&j.target)}),
+        Instruction::JumpWhen(j) if j.condition.name == ctr => {
+            json!({"k": "JumpWhen", "target": target_name(&j.target), "cell": j.condition.index})
+        }
+        Instruction::JumpUnless(j) if j.condition.name == ctr => {
+            json!({"k": "JumpUnless", "target": target_name(&j.target), "cell": j.condition.index})
+        }
+        Instruction::JumpWhen(_) | Instruction::JumpUnless(_) => json!({"k": "Unknown", "text": text}),
+        Instruction::Halt() => json!({"k": "Halt"}),
+        Instruction::Move(m) if m.destination.name == ctr => match &m.source {
+            ArithmeticOperand::LiteralInteger(v) if small(*v) => {
+                json!({"k": "Move", "cell": m.destination.index, "v": v})
+            }
+            _ => json!({"k": "Unknown", "text": text}),
+        },
+        Instruction::Arithmetic(a) if a.destination.name == ctr => match &a.source {
+            ArithmeticOperand::LiteralInteger(v) if small(*v) => {
+                json!({"k": "Arith", "op": a.operator.to_quil_or_debug(), "cell": a.destination.index, "v": v})
+            }
+            _ => json!({"k": "Unknown", "text": text}),
+        },
+        _ if text.contains(ctr) => json!({"k": "Unknown", "text": text}),
+        _ => json!({"k": "Op", "text": text}),
+    }
 }
 
-pub fn drive(_ctx: &Ctx) -> Summary {
-    panic!("C33: drive not implemented")
+fn key_of(i: &Instruction) -> String {
+    match i {
+        Instruction::Declaration(d) => format!("DECLARE {}", d.name),
+        other => other.to_quil_or_debug(),
+    }
+}
+
+/// the definitions of a program in listing order: everything `to_instructions` lists before the body
+pub fn defs_of(p: &Program) -> Vec<Value> {
+    let all = p.to_instructions();
+    let nbody = p.body_instructions().count();
+    all[..all.len() - nbody].iter().map(def_json).collect()
+}
+
+/// section of the listing a definition belongs to (LoopExec!WrapDefs)
+fn section_of(i: &Instruction) -> u64 {
+    match i {
+        Instruction::Pragma(_) => 0,
+        Instruction::Declaration(_) => 1,
+        Instruction::FrameDefinition(_) => 2,
+        Instruction::WaveformDefinition(_) => 3,
+        Instruction::CalibrationDefinition(_) | Instruction::MeasureCalibrationDefinition(_) => 4,
+        Instruction::GateDefinition(_) => 5,
+        Instruction::CircuitDefinition(_) => 6,
+        _ => 7,
+    }
+}
+
+fn def_json(i: &Instruction) -> Value {
+    json!({"key": key_of(i), "text": i.to_quil_or_debug(), "sec": section_of(i)})
+}
+
+fn counter_decl(ctr: &str) -> Value {
+    let d = Instruction::Declaration(Declaration {
+        name: ctr.to_string(),
+        size: Vector { data_type: ScalarType::Integer, length: 1 },
+        sharing: None,
+    });
+    def_json(&d)
+}
+
+/// Rust twin of the LoopExec interpreter, used only to classify a difference from the model.
+/// Ok(executed texts) when the listing halts, Err(reason) otherwise.
+fn interpret(prog: &[Value], n: u64) -> Result<Vec<String>, String> {
+    let mut mem: std::collections::HashMap<u64, i64> = Default::default();
+    let mut executed = vec![];
+    let mut pc = 0usize;
+    let bound = (n + 1) * (prog.len() as u64 + 1);
+    let mut steps = 0u64;
+    let label_pos = |t: &str| -> Result<usize, String> {
+        let ps: Vec<usize> = (0..prog.len()).filter(|&p| prog[p]["k"] == "Label" && prog[p]["target"] == t).collect();
+        if ps.len() == 1 {
+            Ok(ps[0])
+        } else {
+            Err(format!("jump target {t} names {} labels", ps.len()))
+        }
+    };
+    loop {
+        if pc == prog.len() {
+            return Ok(executed);
+        }
+        if steps >= bound {
+            return Err(format!("still running after {steps} steps"));
+        }
+        steps += 1;
+        let i = &prog[pc];
+        let cell = i.get("cell").and_then(|c| c.as_u64()).unwrap_or(0);
+        match i["k"].as_str().unwrap_or("") {
+            "Op" => {
+                executed.push(s(i, "text"));
+                pc += 1
+            }
+            "Move" => {
+                mem.insert(cell, i["v"].as_i64().unwrap());
+                pc += 1
+            }
+            "Arith" => {
+                let v = i["v"].as_i64().unwrap();
+                let c = mem.entry(cell).or_insert(0);
+                match i["op"].as_str().unwrap() {
+                    "ADD" => *c += v,
+                    "SUB" => *c -= v,
+                    "MUL" => *c *= v,
+                    other => return Err(format!("no rule for {other} on the counter")),
+                }
+                pc += 1
+            }
+            "Label" => pc += 1,
+            "Jump" => pc = label_pos(&s(i, "target"))?,
+            "JumpWhen" => pc = if *mem.get(&cell).unwrap_or(&0) != 0 { label_pos(&s(i, "target"))? } else { pc + 1 },
+            "JumpUnless" => pc = if *mem.get(&cell).unwrap_or(&0) == 0 { label_pos(&s(i, "target"))? } else { pc + 1 },
+            "Halt" => return Ok(executed),
+            _ => return Err(format!("no rule for {i}")),
+        }
+    }
+}
+
+struct Wrapped {
+    n: u64,
+    cell: u64,
+    ctr: String,
+    label: String,
+    body: Vec<Value>,
+    defs: Vec<Value>,
+    wrapped: Vec<Value>,
+    wdefs: Vec<Value>,
+    unchanged: bool,
+}
+
+fn wrap(p: &Program, ctr: &str, cell: u64, label: Target, n: u64) -> Wrapped {
+    let label_name = target_name(&label);
+    let w = p.wrap_in_loop(MemoryReference { name: ctr.to_string(), index: cell }, label, n as u32);
+    Wrapped {
+        n,
+        cell,
+        ctr: ctr.to_string(),
+        label: label_name,
+        body: p.body_instructions().map(|i| export(i, ctr)).collect(),
+        defs: defs_of(p),
+        wrapped: w.body_instructions().map(|i| export(i, ctr)).collect(),
+        wdefs: defs_of(&w),
+        unchanged: w == *p && w.to_instructions() == p.to_instructions(),
+    }
+}
+
+impl Wrapped {
+    fn record(&self) -> Value {
+        json!({"ev": "reset", "n": self.n, "cell": self.cell, "label": self.label, "body": self.body, "defs": self.defs,
+               "wrapped": self.wrapped, "wdefs": self.wdefs, "decl": counter_decl(&self.ctr)})
+    }
+}
+
+/// The statement, evaluated on the real result: (observable, expected, actual) per failure.
+fn property_failures(w: &Wrapped) -> Vec<(String, Value, Value)> {
+    let mut fails = vec![];
+    let texts: Vec<String> = w.body.iter().map(|i| i.get("text").and_then(|t| t.as_str()).unwrap_or("?").to_string()).collect();
+    let want: Vec<String> = (0..w.n).flat_map(|_| texts.iter().cloned()).collect();
+    match interpret(&w.wrapped, w.n) {
+        Ok(executed) if executed == want => {}
+        Ok(executed) => fails.push(("executed trace".to_string(), json!(want), json!(executed))),
+        Err(why) => fails.push(("termination".to_string(), json!("halts after n rounds"), json!(why))),
+    }
+    if w.n == 1 && (!w.unchanged || w.wrapped != w.body) {
+        fails.push(("n = 1: program unchanged".to_string(), json!(w.body), json!(w.wrapped)));
+    }
+    if w.n == 0 && !w.wrapped.is_empty() {
+        fails.push(("n = 0: body removed".to_string(), json!([]), json!(w.wrapped)));
+    }
+    // definitions as sets: every original one kept; the only addition allowed is a declaration of the counter
+    let decl_key = format!("DECLARE {}", w.ctr);
+    let lost: Vec<&Value> = w.defs.iter().filter(|d| d["key"] != decl_key.as_str() && !w.wdefs.contains(d)).collect();
+    let added: Vec<&Value> =
+        w.wdefs.iter().filter(|d| !w.defs.contains(d) && !(w.n >= 2 && d["key"] == decl_key.as_str())).collect();
+    let dup = (0..w.wdefs.len()).any(|a| (0..a).any(|b| w.wdefs[a] == w.wdefs[b]));
+    if !lost.is_empty() || !added.is_empty() || dup || (w.n < 2 && w.wdefs.len() != w.defs.len()) {
+        fails.push(("definitions preserved".to_string(), json!(w.defs), json!(w.wdefs)));
+    }
+    fails
+}
+
+/// the as-built shape of the provisional finding: MOVE and JUMP-WHEN on the handed-in cell (not 0), SUB on cell 0
+fn is_index_finding(w: &Wrapped) -> bool {
+    w.cell != 0
+        && w.n >= 2
+        && w.wrapped.iter().any(|i| i["k"] == "Arith" && i["cell"] == 0)
+        && w.wrapped.iter().any(|i| i["k"] == "Move" && i["cell"] == w.cell)
+        && w.wrapped.iter().any(|i| i["k"] == "JumpWhen" && i["cell"] == w.cell)
+}
+
+fn report(o: &mut Outcome, w: &Wrapped, what: &str) -> bool {
+    let fails = property_failures(w);
+    for (obs, want, got) in &fails {
+        let mut v = Violation::new(obs, want.clone(), got.clone())
+            .note(format!("{what}: n = {}, counter {}[{}], wrapped listing {}", w.n, w.ctr, w.cell, json!(w.wrapped)));
+        if obs == "termination" && is_index_finding(w) {
+            v = v.finding(FINDING_INDEX);
+        }
+        o.violate(v);
+    }
+    fails.is_empty()
+}
+
+const DEFS: &str = "DECLARE ro BIT[2]\nDECLARE r REAL[2]\nDEFFRAME 0 \"rf\":\n    SAMPLE-RATE: 1.0\nDEFWAVEFORM wf:\n    1.0, 1.0\nDEFCAL X 0:\n    PULSE 0 \"rf\" wf\nDEFCAL MEASURE 0 addr:\n    CAPTURE 0 \"rf\" wf addr\nDEFGATE G AS MATRIX:\n    1.0, 0\n    0, 1.0\nDEFCIRCUIT BELL a b:\n    H a\n    CNOT a b\nPRAGMA EXTERN foo \"(a : INTEGER)\"\n";
+
+const PALETTES: [[&str; 4]; 2] = [
+    ["X 0", "MOVE r[0] 1.0", "MEASURE 0 ro[0]", "PRAGMA foo \"bar\""],
+    ["PULSE 0 \"rf\" wf", "ADD r[1] 2.0", "CNOT 0 1", "NOP"],
+];
+
+fn symbol_index(sym: &str) -> usize {
+    match sym {
+        "a" => 0,
+        "b" => 1,
+        "c" => 2,
+        "d" => 3,
+        other => panic!("unknown body symbol {other}"),
+    }
+}
+
+pub fn replay(_ctx: &Ctx, case: &Value) -> Outcome {
+    if let Some(h) = case.get("history") {
+        return replay_record(&h[0]);
+    }
+    let n = util::u(case, "n");
+    let cell = util::u(case, "cell");
+    let symbols: Vec<String> = arr(case, "body").iter().map(|x| x.as_str().expect("symbol").to_string()).collect();
+    let mut o = Outcome::ok(n >= 2 && !symbols.is_empty());
+    for (pi, palette) in PALETTES.iter().enumerate() {
+        let mut p = if pi == 0 { util::program(DEFS) } else { Program::new() };
+        for sym in &symbols {
+            p.add_instruction(instr(palette[symbol_index(sym)]));
+        }
+        let (ctr, label) = if pi == 0 { ("ctr", "L") } else { ("loop-count", "start_loop") };
+        let w = wrap(&p, ctr, cell, Target::Fixed(label.to_string()), n);
+        o.sub_evaluations += 1;
+        // the model's listing, spelled with this palette
+        let want: Vec<Value> = arr(case, "wrapped")
+            .iter()
+            .map(|i| {
+                let mut i = i.clone();
+                if i["k"] == "Op" {
+                    let t = instr(palette[symbol_index(i["text"].as_str().unwrap())]).to_quil_or_debug();
+                    i["text"] = json!(t);
+                }
+                if i.get("target").is_some() {
+                    i["target"] = json!(label);
+                }
+                i
+            })
+            .collect();
+        let holds = report(&mut o, &w, &format!("palette {pi}"));
+        if holds && w.wrapped != want {
+            o.diverge(format!(
+                "palette {pi}: listing differs from the model's Wrap but satisfies the property: {}",
+                json!(w.wrapped)
+            ));
+        }
+        if holds && w.n >= 2 && !w.wdefs.contains(&counter_decl(ctr)) {
+            o.diverge(format!("palette {pi}: the counter is not declared INTEGER[1]: {}", json!(w.wdefs)));
+        }
+    }
+    o
+}
+
+/// a recorded wrapped program rejected by trace validation: rebuild it from the record and judge it
+fn replay_record(rec: &Value) -> Outcome {
+    let n = util::u(rec, "n");
+    let cell = util::u(rec, "cell");
+    let ctr = s(&rec["decl"], "key").trim_start_matches("DECLARE ").to_string();
+    let mut text = String::new();
+    for d in arr(rec, "defs") {
+        text.push_str(&s(d, "text"));
+        text.push('\n');
+    }
+    for i in arr(rec, "body") {
+        text.push_str(&s(i, "text"));
+        text.push('\n');
+    }
+    let p = util::program(&text);
+    let label = s(rec, "label");
+    let w = wrap(&p, &ctr, cell, Target::Fixed(label), n);
+    let mut o = Outcome::ok(n >= 2 && p.body_instructions().count() > 0);
+    report(&mut o, &w, "recorded program");
+    o
+}
+
+// ------------------------------------------------------------------------------------------- drive
+
+const BODY: &[&str] = &[
+    "X 0", "CNOT 0 1", "RX(pi/2) 1", "RZ(theta[0]) 2", "CONTROLLED X 2 0", "G 1", "BELL 0 1", "MEASURE 0 ro[0]",
+    "MEASURE 1", "MOVE r[0] 1.0", "ADD r[1] 2.0", "SUB r[0] r[1]", "MUL k[0] 3", "NOT ro[1]", "EXCHANGE r[0] r[1]",
+    "EQ ro[0] k[0] 1", "CONVERT r[0] k[0]", "LOAD r[0] theta k[0]", "STORE theta k[0] r[1]", "NOP", "WAIT", "RESET",
+    "RESET 1", "PRAGMA foo", "PRAGMA PRESERVE_BLOCK", "PRAGMA note a 1 \"text\"", "FENCE 0 1", "FENCE", "DELAY 0 1.0",
+    "PULSE 0 \"rf\" wf", "NONBLOCKING PULSE 0 1 \"cz\" flat(duration: 1.0, iq: 1.0)", "CAPTURE 0 \"ro\" wf ro[0]",
+    "RAW-CAPTURE 0 \"ro\" 1.0 raw[0]", "SHIFT-PHASE 0 \"rf\" 1.0", "SET-FREQUENCY 0 \"rf\" r[0]", "SET-SCALE 0 \"rf\" 0.5",
+    "SWAP-PHASES 0 \"rf\" 1 \"rf\"", "CALL foo k[0]",
+];
+
+const DEF_POOL: &[&str] = &[
+    "DECLARE ro BIT[2]", "DECLARE r REAL[2]", "DECLARE k INTEGER[1]", "DECLARE theta REAL[4]", "DECLARE raw REAL[8]",
+    "DECLARE shared BIT[8] SHARING raw OFFSET 1 REAL", "DEFFRAME 0 \"rf\":\n    SAMPLE-RATE: 1.0",
+    "DEFFRAME 0 \"ro\":\n    SAMPLE-RATE: 1.0\n    INITIAL-FREQUENCY: 2.0", "DEFFRAME 0 1 \"cz\":\n    SAMPLE-RATE: 1.0",
+    "DEFWAVEFORM wf:\n    1.0, 1.0", "DEFWAVEFORM other(%a):\n    %a, 1.0i", "DEFCAL X 0:\n    PULSE 0 \"rf\" wf",
+    "DEFCAL RX(%t) q:\n    SHIFT-PHASE q \"rf\" %t", "DEFCAL MEASURE 0 addr:\n    CAPTURE 0 \"ro\" wf addr",
+    "DEFCAL MEASURE q:\n    NOP", "DEFGATE G AS MATRIX:\n    1.0, 0\n    0, 1.0", "DEFGATE P AS PERMUTATION:\n    1, 0",
+    "DEFCIRCUIT BELL a b:\n    H a\n    CNOT a b", "PRAGMA EXTERN foo \"(a : INTEGER)\"",
+    "PRAGMA EXTERN bar \"REAL (a : mut REAL[])\"",
+];
+
+const COUNTERS: &[&str] = &["ctr", "loop_count", "n-iter", "shot_count_0"];
+const LABELS: &[&str] = &["L", "loop", "start-loop", "a_0"];
+
+pub fn drive(ctx: &Ctx) -> Summary {
+    let n_hist = ctx.arg_u64("n", 100);
+    let max_len = ctx.arg_u64("len", 12) as usize;
+    let max_n = ctx.arg_u64("iters", 8);
+    let path = ctx.arg_str("out").expect("--out");
+    let mut out = std::io::BufWriter::new(std::fs::File::create(path).expect("create trace"));
+    let mut rng = util::rng(ctx.seed, 33);
+    let mut sum = Summary::default();
+    let mut seen = std::collections::HashSet::new();
+    for h in 0..n_hist {
+        let len = if h < 3 { h as usize } else { rng.gen_range(0..=max_len) };
+        let n = if h < 9 { h % 3 + (h / 3) % 3 } else { rng.gen_range(0..=max_n) };
+        let mut p = Program::new();
+        let ndefs = rng.gen_range(0..=DEF_POOL.len());
+        let mut defs: Vec<&str> = DEF_POOL.choose_multiple(&mut rng, ndefs).cloned().collect();
+        defs.shuffle(&mut rng);
+        for d in defs {
+            p.add_instruction(instr(d));
+        }
+        for _ in 0..len {
+            p.add_instruction(instr(BODY.choose(&mut rng).unwrap()));
+        }
+        let ctr = COUNTERS.choose(&mut rng).unwrap();
+        let label_name = LABELS.choose(&mut rng).unwrap().to_string();
+        let label = if rng.gen_bool(0.3) {
+            Target::Placeholder(TargetPlaceholder::new(label_name))
+        } else {
+            Target::Fixed(label_name)
+        };
+        let w = wrap(&p, ctr, 0, label, n);
+        let rec = w.record();
+        util::emit(&mut out, &rec);
+        let mut o = Outcome::ok(n >= 2 && len > 0);
+        o.count("events");
+        o.count_n("exported_instructions", w.wrapped.len() as u64);
+        let case = json!({"n": n, "body": w.body.iter().map(|i| i["text"].clone()).collect::<Vec<_>>(), "ndefs": w.defs.len()});
+        let distinct = seen.insert(case.to_string());
+        sum.absorb(&case, &o, distinct);
+    }
+    sum
 }
